@@ -130,9 +130,9 @@ func propSpecs() map[string]*PropSpec {
 			},
 			Standin:    []string{"panic", "reparse", "tokens", "comments", "error-path", "outputs"},
 			Extra:      func(e *Engine) []*Obligation { return append(e.coverObligations(), e.printObligations(10*time.Second)...) },
-			Decided:    []string{"on a syntax error FormatPacketDsl returns its input unchanged together with an error (postcondition, all inputs)", "format -f / -d: on a formatter error exit status 1 and no file-system effect (exits clause, all inputs)", "COVER: every content element of every grammar rule (sub-rule, token with variable text, optional or repeated keyword) is read by some formatter function or printed generically with an enclosing rule - a necessary condition for retaining it; derived from the grammar, decided on the SSA"},
+			Decided:    []string{"PRINT: on every return path of every formatter method that is handed a parse-tree node, each content element of the node that occurs at most once and may be present on that path (decided by SMT on the path condition) is contained in the returned text - as the text of its token / sub-rule, as the result of the formatter method it (or the whole node) was handed to, or as the keyword literal; one obligation per (context type, element), with a vacuity guard", "on a syntax error FormatPacketDsl returns its input unchanged together with an error (postcondition, all inputs)", "format -f / -d: on a formatter error exit status 1 and no file-system effect (exits clause, all inputs)", "COVER: every content element of every grammar rule (sub-rule, token with variable text, optional or repeated keyword) is read by some formatter function or printed generically with an enclosing rule - a necessary condition for retaining it; derived from the grammar, decided on the SSA"},
 			Bounded:    []string{"BOUNDED (not counted as proved): on an enumerated corpus of grammar-derived sentences with comments at token boundaries, key lists of length 1..16 and fault templates, the real formatter's result re-parses, keeps the default-channel token sequence (optional ',' ';' ignored) and the comment sequence, and where the input compiles the formatted text compiles to byte-identical file sets for all six targets"},
-			OutOfReach: []string{"token / comment preservation and output equality for all inputs (COVER obligations are not built in this revision)"}},
+			OutOfReach: []string{"order and multiplicity of the printed elements, elements under * / + (loop cut), comment preservation and output equality for all inputs: bounded corpus only"}},
 		"C10": {ID: "C10", Kinds: []string{"POST"}, FuncMatch: regexp.MustCompile(`parser\.FormatPacketDsl$`),
 			Own:        func(o *Obligation) bool { return strings.Contains(o.Name, "C09:error") },
 			Standin:    []string{"idempotent", "relayout"},
